@@ -91,8 +91,9 @@ def recipes(tier, rng):
     for evs in ([], [{"data": "a"}], [{"data": "a"}, {"event": "b", "data": "c\nd", "id": "1", "retry": 5}], [{"data": "a"}, "RAISE"], ["RAISE"]):
         out.append(["sse", evs, 200, [], [], "utf-8"])
     out.append(["sse", [{"data": "é"}], 200, [["X-Accel-Buffering", "no"]], [], "latin-1"])
-    for u in ("/", "http://example.com/é?x=1", "/sp ace", "/\r\nX: y", "//evil"):
+    for u in ("/", "http://example.com/é?x=1", "/sp ace", "/\r\nX: y", "//evil", "/\u4e2d\u6587/\u6587\u4ef6", "/tab\there\x0bvt", "/\U0001f600"):
         out.append(["redirect", u, 301, [], []])
+        out.append(["redirect", u, 302, [], []])
     out.extend(file_recipes(rng, 0))
     return out
 
